@@ -17,6 +17,16 @@ namespace Lbfgsb.C09
 open Lbfgsb Matrix
 variable {K : Type} [Field K] [LinearOrder K] [IsStrictOrderedRing K]
 
+/-- the box-truncated Newton point, from the specification of the model -/
+theorem newton_point_of_spec (i : SubIn K) (n k : Nat) (Mm : Matrix (Fin k) (Fin k) K) (h : SubSpec i n k Mm) :
+    ∃ (al : K) (u : Vec K), u.length = n ∧ 0 ≤ al ∧ al ≤ 1 ∧ subspaceMin i = vadd i.xc (smul al u) ∧
+      InBoxF i.lb i.ub (subspaceMin i) ∧
+      (∀ r, maskF n (freeMask i.xc i.lb i.ub) r = false → vec n u r = 0) ∧
+      (∀ r, maskF n (freeMask i.xc i.lb i.ub) r = true →
+        (vec n i.g + bmat i.theta (wmat n k i.W) Mm *ᵥ ((vec n i.xc - vec n i.x) + vec n u)) r = 0) := by
+  obtain ⟨h1, h2, hl, al, ha0, ha1, he, hin⟩ := h
+  exact ⟨al, subD i, hl, ha0, ha1, he, hin, h1, h2⟩
+
 /-- **C09 (the model returns the box-truncated Newton point)** -/
 theorem subspace_newton_point (i : SubIn K) (n k : Nat) (Mm Minvm : Matrix (Fin k) (Fin k) K)
     (h : SubCtx i n k Mm Minvm) :
@@ -24,22 +34,52 @@ theorem subspace_newton_point (i : SubIn K) (n k : Nat) (Mm Minvm : Matrix (Fin 
       InBoxF i.lb i.ub (subspaceMin i) ∧
       (∀ r, maskF n (freeMask i.xc i.lb i.ub) r = false → vec n u r = 0) ∧
       (∀ r, maskF n (freeMask i.xc i.lb i.ub) r = true →
-        (vec n i.g + bmat i.theta (wmat n k i.W) Mm *ᵥ ((vec n i.xc - vec n i.x) + vec n u)) r = 0) := by
-  obtain ⟨h1, h2, hl, al, ha0, ha1, he, hin⟩ := subspace_spec i n k Mm Minvm h
-  exact ⟨al, subD i, hl, ha0, ha1, he, hin, h1, h2⟩
+        (vec n i.g + bmat i.theta (wmat n k i.W) Mm *ᵥ ((vec n i.xc - vec n i.x) + vec n u)) r = 0) :=
+  newton_point_of_spec i n k Mm (subspace_spec i n k Mm Minvm h)
+
+/-- **C09 (… with an empty memory)** no hypothesis on any solve: `B = θI` and nothing is solved -/
+theorem subspace_newton_point_nopairs (i : SubIn K) (n k : Nat) (h : SubCtx0 i n k) :
+    ∃ (al : K) (u : Vec K), u.length = n ∧ 0 ≤ al ∧ al ≤ 1 ∧ subspaceMin i = vadd i.xc (smul al u) ∧
+      InBoxF i.lb i.ub (subspaceMin i) ∧
+      (∀ r, maskF n (freeMask i.xc i.lb i.ub) r = false → vec n u r = 0) ∧
+      (∀ r, maskF n (freeMask i.xc i.lb i.ub) r = true →
+        (vec n i.g + bmat i.theta (wmat n k i.W) (0 : Matrix (Fin k) (Fin k) K) *ᵥ
+          ((vec n i.xc - vec n i.x) + vec n u)) r = 0) :=
+  newton_point_of_spec i n k 0 (subspace_spec0 i n k h)
 
 /-- the displacement from `x` to the returned point, as a vector -/
-theorem subspace_displacement (i : SubIn K) (n k : Nat) (Mm Minvm : Matrix (Fin k) (Fin k) K)
-    (h : SubCtx i n k Mm Minvm) :
+theorem displacement_of_spec (i : SubIn K) (n k : Nat) (Mm : Matrix (Fin k) (Fin k) K) (h : SubSpec i n k Mm)
+    (hxc : i.xc.length = n) :
     ∃ (al : K) (u : Fin n → K), 0 ≤ al ∧ al ≤ 1 ∧
       vec n (subspaceMin i) - vec n i.x = (vec n i.xc - vec n i.x) + al • u ∧
       (∀ r, maskF n (freeMask i.xc i.lb i.ub) r = false → u r = 0) ∧
       (∀ r, maskF n (freeMask i.xc i.lb i.ub) r = true →
         (vec n i.g + bmat i.theta (wmat n k i.W) Mm *ᵥ ((vec n i.xc - vec n i.x) + u)) r = 0) := by
-  obtain ⟨al, u, hul, ha0, ha1, he, -, h1, h2⟩ := subspace_newton_point i n k Mm Minvm h
+  obtain ⟨al, u, hul, ha0, ha1, he, -, h1, h2⟩ := newton_point_of_spec i n k Mm h
   refine ⟨al, vec n u, ha0, ha1, ?_, h1, h2⟩
-  rw [he, vec_vadd n _ _ h.hxc (by rw [smul_length, hul]), vec_smul n _ _ hul]
+  rw [he, vec_vadd n _ _ hxc (by rw [smul_length, hul]), vec_smul n _ _ hul]
   abel
+
+/-- model value does not increase, from the specification -/
+theorem no_increase_of_spec (i : SubIn K) (n k : Nat) (Mm : Matrix (Fin k) (Fin k) K) (h : SubSpec i n k Mm)
+    (hxc : i.xc.length = n) (hsym : Mmᵀ = Mm)
+    (hpsd : ∀ a : Fin n → K, 0 ≤ a ⬝ᵥ (bmat i.theta (wmat n k i.W) Mm *ᵥ a)) :
+    qmodel (vec n i.g) (bmat i.theta (wmat n k i.W) Mm) (vec n (subspaceMin i) - vec n i.x) ≤
+      qmodel (vec n i.g) (bmat i.theta (wmat n k i.W) Mm) (vec n i.xc - vec n i.x) := by
+  obtain ⟨al, u, ha0, ha1, he, hact, hnewt⟩ := displacement_of_spec i n k Mm h hxc
+  rw [he]
+  exact subspace_no_increase _ _ (bmat_symm _ _ _ hsym) _ u
+    (masked_newton_condition _ _ _ u _ hact hnewt) (hpsd u) al ha0 ha1
+
+/-- descent, from the specification -/
+theorem descent_of_spec (i : SubIn K) (n k : Nat) (Mm : Matrix (Fin k) (Fin k) K) (h : SubSpec i n k Mm)
+    (hxc : i.xc.length = n) (hsym : Mmᵀ = Mm)
+    (hpsd : ∀ a : Fin n → K, 0 ≤ a ⬝ᵥ (bmat i.theta (wmat n k i.W) Mm *ᵥ a))
+    (hc : qmodel (vec n i.g) (bmat i.theta (wmat n k i.W) Mm) (vec n i.xc - vec n i.x) < 0) :
+    vec n i.g ⬝ᵥ (vec n (subspaceMin i) - vec n i.x) < 0 := by
+  obtain ⟨al, u, ha0, ha1, he, hact, hnewt⟩ := displacement_of_spec i n k Mm h hxc
+  rw [he]
+  exact direction_descent _ _ (bmat_symm _ _ _ hsym) hpsd _ u _ hact hnewt hc al ha0 ha1
 
 /-- **C09 (model value)** the subspace step of the model never increases the quadratic model
 (`B` symmetric positive semi-definite) -/
@@ -47,11 +87,8 @@ theorem subspace_model_no_increase (i : SubIn K) (n k : Nat) (Mm Minvm : Matrix 
     (h : SubCtx i n k Mm Minvm) (hsym : Mmᵀ = Mm)
     (hpsd : ∀ a : Fin n → K, 0 ≤ a ⬝ᵥ (bmat i.theta (wmat n k i.W) Mm *ᵥ a)) :
     qmodel (vec n i.g) (bmat i.theta (wmat n k i.W) Mm) (vec n (subspaceMin i) - vec n i.x) ≤
-      qmodel (vec n i.g) (bmat i.theta (wmat n k i.W) Mm) (vec n i.xc - vec n i.x) := by
-  obtain ⟨al, u, ha0, ha1, he, hact, hnewt⟩ := subspace_displacement i n k Mm Minvm h
-  rw [he]
-  exact subspace_no_increase _ _ (bmat_symm _ _ _ hsym) _ u
-    (masked_newton_condition _ _ _ u _ hact hnewt) (hpsd u) al ha0 ha1
+      qmodel (vec n i.g) (bmat i.theta (wmat n k i.W) Mm) (vec n i.xc - vec n i.x) :=
+  no_increase_of_spec i n k Mm (subspace_spec i n k Mm Minvm h) h.hxc hsym hpsd
 
 /-- **C09 (descent)** after a Cauchy step with strict model decrease, the search direction
 `x̄ − x` of the model is a descent direction -/
@@ -59,10 +96,17 @@ theorem subspace_direction_descent (i : SubIn K) (n k : Nat) (Mm Minvm : Matrix 
     (h : SubCtx i n k Mm Minvm) (hsym : Mmᵀ = Mm)
     (hpsd : ∀ a : Fin n → K, 0 ≤ a ⬝ᵥ (bmat i.theta (wmat n k i.W) Mm *ᵥ a))
     (hc : qmodel (vec n i.g) (bmat i.theta (wmat n k i.W) Mm) (vec n i.xc - vec n i.x) < 0) :
+    vec n i.g ⬝ᵥ (vec n (subspaceMin i) - vec n i.x) < 0 :=
+  descent_of_spec i n k Mm (subspace_spec i n k Mm Minvm h) h.hxc hsym hpsd hc
+
+/-- **C09 (descent, empty memory)** `θ > 0` is all that is needed of the model -/
+theorem subspace_direction_descent_nopairs (i : SubIn K) (n k : Nat) (h : SubCtx0 i n k) (hθ : 0 < i.theta)
+    (hc : qmodel (vec n i.g) (bmat i.theta (wmat n k i.W) (0 : Matrix (Fin k) (Fin k) K)) (vec n i.xc - vec n i.x) < 0) :
     vec n i.g ⬝ᵥ (vec n (subspaceMin i) - vec n i.x) < 0 := by
-  obtain ⟨al, u, ha0, ha1, he, hact, hnewt⟩ := subspace_displacement i n k Mm Minvm h
-  rw [he]
-  exact direction_descent _ _ (bmat_symm _ _ _ hsym) hpsd _ u _ hact hnewt hc al ha0 ha1
+  refine descent_of_spec i n k 0 (subspace_spec0 i n k h) h.hxc (by simp) ?_ hc
+  intro a
+  rw [bmat_mulVec, zero_mulVec, mulVec_zero, sub_zero, dotProduct_smul, smul_eq_mul]
+  exact mul_nonneg (le_of_lt hθ) (Finset.sum_nonneg fun j _ => mul_self_nonneg (a j))
 
 end Lbfgsb.C09
 
